@@ -415,6 +415,7 @@ impl World {
             Cd::Multi(v) => pg::cd_multi(&v.iter().map(|c| self.cd_bytes(c)).collect::<Vec<_>>()),
             Cd::Burn(n) => pg::cd_burn(*n),
             Cd::BlockInfo => pg::cd_blockinfo(),
+            Cd::BtcDetails => crate::props::c09::btc_details_calldata(),
             Cd::Probe(d) => pg::cd_probe(d),
             Cd::Ctl { ticker, call } => self.erc_ctl_bytes(*ticker, call),
             Cd::Tok(call) => self.erc_tok_bytes(call),
@@ -1112,6 +1113,13 @@ impl World {
             ReadOp::AtBlock { sel, read } => {
                 let b = self.block_sel(sel);
                 return self.exec_read_at(read, Some(b));
+            }
+            ReadOp::BtcOverrides => {
+                let call = json!({"from": DEAD, "to": format!("0x{:040x}", 0xfd), "data": hex0x(&crate::props::c09::btc_details_calldata())});
+                out.push(self.call(
+                    "eth_callMany",
+                    json!([[call], blk, {"opReturnTxIds": [txid_for(9100)], "bitcoinTxHexes": Value::Object(crate::props::c09::btc_hexes())}]),
+                ));
             }
             ReadOp::EthCall { from, to, data, deploy } => {
                 let o = self.eth_call_obj(from, to, data, deploy);
